@@ -97,6 +97,7 @@ DeepPos == <<
   Pos("alias>named-scalar", "req", <<"refscalar", "aliasref">>),  Pos("optional-alias>named-scalar", "opt", <<"refscalar", "aliasref">>),
   Pos("alias>alias>named-scalar", "req", <<"refscalar", "aliasref", "aliasref">>),
   Pos("array>alias>named-scalar", "req", <<"refscalar", "aliasref", "arr">>),
+  Pos("alias>alias>ref", "opt", <<"alias", "aliasref">>),
   \* nested collections whose INNERMOST items are nullable scalars
   Pos("array>array>nullable", "req", <<"nullable", "arr", "arr">>), Pos("map>array>nullable", "req", <<"nullable", "arr", "map">>),
   Pos("array>map>nullable", "req", <<"nullable", "map", "arr">>),  Pos("optional>array>array>array>nullable", "opt", <<"nullable", "arr", "arr", "arr">>)
@@ -212,6 +213,33 @@ FixedList == <<
     Def("Root", TStruct(<<
       F("a", TUnion(<<TStr(-1, -1), TBool>>)), FOpt("b", TUnion(<<TStr(-1, -1), TBool>>)), F("c", TUnion(<<TStr(-1, -1), TBool>>)),
       FNull("d", TUnion(<<TStr(-1, -1), TBool>>)), F("e", TUnion(<<TStr(-1, -1), TBool>>))>>))>>, FALSE),
+  \* OPTIONAL fields with defaults (non-zero and zero): a document giving them the zero value of their type must round-trip
+  Fixed("optional-defaults", <<
+    Def("Root", TStruct(<<
+      FOptDef("s", TStr(-1, -1), JStr("ab")), FOptDef("b", TBool, JBool(TRUE)), FOptDef("i", TInt("int64", NoB, NoB), JInt(1)),
+      FOptDef("n", TNum("float64", NoB, NoB), JNum(15)), FOptDef("e", TEnum(<<"a", "b">>), JStr("b")),
+      FOptDef("z", TInt("int64", NoB, NoB), JInt(0)), FOptDef("f", TBool, JBool(FALSE)), FOptDef("a", TArr(TStr(-1, -1)), JArr(<<>>)),
+      F("plain", TStr(-1, -1))>>))>>, FALSE),
+  \* unions of structs carrying TWO constant fields, one shared and same-valued, one discriminating, in both declaration
+  \* orders and both alphabetical orders (the shared one is called `version` - after `kind` - or `aversion` - before it)
+  Fixed("union-two-constants", <<
+    Def("Root", TStruct(<<
+      F("p", TDUnion("kind", <<"A1", "B1">>)), F("q", TDUnion("kind", <<"A2", "B2">>)),
+      F("r", TDUnion("kind", <<"A3", "B3">>)), F("s", TArr(TDUnion("kind", <<"A4", "B4">>)))>>)),
+    Def("A1", TStruct(<<F("version", TConst(JStr("v1"))), F("kind", TConst(JStr("a"))), F("x", TInt("int64", NoB, NoB))>>)),
+    Def("B1", TStruct(<<F("version", TConst(JStr("v1"))), F("kind", TConst(JStr("b"))), F("y", TStr(-1, -1))>>)),
+    Def("A2", TStruct(<<F("kind", TConst(JStr("a"))), F("version", TConst(JStr("v1"))), F("x", TInt("int64", NoB, NoB))>>)),
+    Def("B2", TStruct(<<F("kind", TConst(JStr("b"))), F("version", TConst(JStr("v1"))), F("y", TStr(-1, -1))>>)),
+    Def("A3", TStruct(<<F("aversion", TConst(JStr("v1"))), F("kind", TConst(JStr("a"))), F("x", TInt("int64", NoB, NoB))>>)),
+    Def("B3", TStruct(<<F("aversion", TConst(JStr("v1"))), F("kind", TConst(JStr("b"))), F("y", TStr(-1, -1))>>)),
+    Def("A4", TStruct(<<F("kind", TConst(JStr("a"))), F("aversion", TConst(JStr("v1"))), F("x", TInt("int64", NoB, NoB))>>)),
+    Def("B4", TStruct(<<F("kind", TConst(JStr("b"))), F("aversion", TConst(JStr("v1"))), F("y", TStr(-1, -1))>>))>>, FALSE),
+  \* the SAME referenced struct typing positions of different nullability, in both orders
+  Fixed("reused-ref-orders", <<
+    Def("Root", TStruct(<<
+      FOpt("a", TRef("Child")), F("b", TRef("Child")), FNull("c", TRef("Child")), F("d", TRef("Child")),
+      F("e", TArr(TNullable(TRef("Child")))), F("f", TArr(TRef("Child"))), FOptNull("g", TRef("Child"))>>)),
+    Child>>, TRUE),
   \* half-open numeric ranges in both orientations, integer and float, required and optional: 0 and 2 sit ON the bounds
   Fixed("half-open-ranges", <<
     Def("Root", TStruct(<<
@@ -221,14 +249,20 @@ FixedList == <<
   \* declared properties that differ only by letter case, one required and one optional (C01)
   Fixed("case-twins", <<
     Def("Root", TStruct(<<
-      F("userID", TStr(1, -1)), FOpt("userId", TStr(1, -1)), FOpt("name", TStr(-1, -1))>>))>>, TRUE),
+      F("userID", TStr(1, -1)), FOpt("userId", TStr(1, -1)), FOpt("name", TStr(-1, -1)),
+      FOpt("p", TRef("ItemID")), FOpt("q", TRef("ItemId"))>>)),
+    Def("ItemID", TStruct(<<F("n", TInt("int64", Ge(0), NoB))>>)),
+    Def("ItemId", TStruct(<<F("n", TStr(1, -1)), FOpt("o", TBool)>>))>>, TRUE),
   \* TWO packages (definitions named "x.Name" live in a second input file / Go package): named collections with the SAME
   \* bare name in both, the foreign unconstrained one first in field order, plus a foreign struct
   Fixed("two-packages", <<
     Def("Root", TStruct(<<
       F("a", TRef("x.Coll")), F("b", TRef("Coll")), F("c", TRef("x.List")), F("d", TRef("List")),
       FOpt("e", TRef("x.Child")), FOpt("f", TArr(TRef("x.Child"))), F("g", TRef("x.Tags")), F("h", TRef("Tags")),
-      FOpt("i", TRef("x.Dict")), FOpt("j", TRef("Dict"))>>)),
+      FOpt("i", TRef("x.Dict")), FOpt("j", TRef("Dict")), FOpt("k", TRef("x.Unit")), FOpt("l", TRef("Unit")),
+      FOpt("m", TRef("x.Item")), FOpt("n", TRef("Item"))>>)),
+    Def("Unit", TStr(1, -1)), Def("x.Unit", TStr(-1, -1)),
+    Def("Item", TStruct(<<F("n", TInt("int64", Ge(0), NoB)), FOpt("o", TStr(-1, -1))>>)), Def("x.Item", TStruct(<<F("n", TInt("int64", NoB, NoB))>>)),
     Def("Tags", TArr(TNullable(TStr(-1, -1)))), Def("x.Tags", TArr(TStr(-1, -1))),
     Def("Dict", TMap(TNullable(TInt("int64", NoB, NoB)))), Def("x.Dict", TMap(TInt("int64", NoB, NoB))),
     Def("Coll", TMap(TStr(1, -1))), Def("List", TArr(TInt("int64", Ge(0), NoB))),
@@ -238,7 +272,10 @@ FixedList == <<
   Fixed("two-packages-reversed", <<
     Def("Root", TStruct(<<
       F("a", TRef("Coll")), F("b", TRef("x.Coll")), F("c", TRef("List")), F("d", TRef("x.List")),
-      F("g", TRef("Tags")), F("h", TRef("x.Tags")), FOpt("i", TRef("Dict")), FOpt("j", TRef("x.Dict"))>>)),
+      F("g", TRef("Tags")), F("h", TRef("x.Tags")), FOpt("i", TRef("Dict")), FOpt("j", TRef("x.Dict")),
+      FOpt("k", TRef("Unit")), FOpt("l", TRef("x.Unit")), FOpt("m", TRef("Item")), FOpt("n", TRef("x.Item"))>>)),
+    Def("Unit", TStr(1, -1)), Def("x.Unit", TStr(-1, -1)),
+    Def("Item", TStruct(<<F("n", TInt("int64", Ge(0), NoB)), FOpt("o", TStr(-1, -1))>>)), Def("x.Item", TStruct(<<F("n", TInt("int64", NoB, NoB))>>)),
     Def("Tags", TArr(TNullable(TStr(-1, -1)))), Def("x.Tags", TArr(TStr(-1, -1))),
     Def("Dict", TMap(TNullable(TInt("int64", NoB, NoB)))), Def("x.Dict", TMap(TInt("int64", NoB, NoB))),
     Def("Coll", TMap(TStr(1, -1))), Def("List", TArr(TInt("int64", Ge(0), NoB))),
